@@ -15,7 +15,7 @@ import subprocess
 
 VERIF = os.path.dirname(os.path.dirname(os.path.dirname(os.path.abspath(__file__))))
 REPO = os.environ.get("VK_REPO", "/repo")
-MODELS = ["verif-sched", "dashmap", "parking_lot", "crossbeam-channel", "hashbrown", "bloomfilter", "rand", "num"]
+MODELS = ["verif-sched", "dashmap", "parking_lot", "crossbeam-channel", "crossbeam-utils", "hashbrown", "bloomfilter", "rand", "num"]
 
 # source file (relative to src/cache) -> harness file under /verif/harness
 HARNESS_FILES = {
@@ -75,7 +75,7 @@ def rewrite_manifest(text):
 
 
 USE_COLLECTIONS = re.compile(r"^(\s*)use\s+std::collections::\{([^}]*)\}\s*;\s*$")
-USE_COLLECTION1 = re.compile(r"^(\s*)use\s+std::collections::(HashSet|HashMap)\s*;\s*$")
+USE_COLLECTION1 = re.compile(r"^(\s*)use\s+std::collections::(HashSet|HashMap|BinaryHeap)\s*;\s*$")
 USE_ATOMICS = re.compile(r"^(\s*)use\s+std::sync::atomic::\{([^}]*)\}\s*;\s*$")
 USE_ATOMIC1 = re.compile(r"^(\s*)use\s+std::sync::atomic::AtomicBool\s*;\s*$")
 USE_THREAD = re.compile(r"^(\s*)use\s+std::thread\s*;\s*$")
@@ -115,7 +115,7 @@ def redirect_imports(src):
         m = USE_COLLECTIONS.match(line)
         if m:
             names = [n.strip() for n in m.group(2).split(",") if n.strip()]
-            moved = [n for n in names if n in ("HashSet", "HashMap")]
+            moved = [n for n in names if n in ("HashSet", "HashMap", "BinaryHeap")]
             if moved:
                 keep = [n for n in names if n not in moved]
                 new = "#[cfg(not(kani))] %s " % line.strip()
